@@ -444,7 +444,135 @@ def coq_chain(chain):
     return "[%s]" % "; ".join(items)
 
 
-def translate(src):
+# --------------------------------------------------------------------------------------
+# contract.py: the cached expression object.  `Contractor.__call__` must not write to the object (or to
+# anything that outlives the call): a cached expression is shared by every later call with the same key.
+MUTATORS = {"append", "extend", "insert", "pop", "remove", "clear", "update", "setdefault", "add", "discard",
+            "popitem", "sort", "reverse", "__setitem__", "__delitem__", "__setattr__", "appendleft"}
+
+
+def contractor_effects(src):
+    """-> (slots, attributes read by __call__, writes performed by __call__ as readable strings).
+    A write is: an assignment / augmented assignment / del whose target is self.X, self.X[...], an alias
+    of self.X subscripted, Contractor.X / type(self).X / self.__class__.X; a call of a mutating method on
+    self.X or on an alias of it; setattr/delattr(self, ...); a global / nonlocal statement."""
+    try:
+        mod = ast.parse(src)
+    except SyntaxError as e:
+        raise Untranslatable("untranslatable: contract.py does not parse: %s" % e)
+    cls = [n for n in mod.body if isinstance(n, ast.ClassDef) and n.name == "Contractor"]
+    if len(cls) != 1:
+        raise Untranslatable("untranslatable: contract.py: class Contractor not found exactly once")
+    cls = cls[0]
+    slots = None
+    for st in cls.body:
+        if isinstance(st, ast.Assign) and len(st.targets) == 1 and is_name(st.targets[0], "__slots__"):
+            if not (isinstance(st.value, (ast.Tuple, ast.List))
+                    and all(isinstance(e, ast.Constant) and isinstance(e.value, str) for e in st.value.elts)):
+                bad(st, "Contractor.__slots__ is not a literal tuple of strings")
+            slots = [e.value for e in st.value.elts]
+        elif isinstance(st, ast.Assign) or isinstance(st, ast.AnnAssign):
+            bad(st, "Contractor has a class-level attribute besides __slots__ (shared mutable state?)")
+    if slots is None:
+        raise Untranslatable("untranslatable: contract.py: Contractor.__slots__ not found")
+    calls = [n for n in cls.body if isinstance(n, ast.FunctionDef) and n.name == "__call__"]
+    if len(calls) != 1 or not calls[0].args.args or calls[0].args.args[0].arg != "self":
+        raise Untranslatable("untranslatable: contract.py: Contractor.__call__(self, ...) not found exactly once")
+    fn = calls[0]
+    if fn.decorator_list:
+        bad(fn, "Contractor.__call__ is decorated")
+
+    def self_attr(n):
+        """n is self.X (possibly under subscripts) -> X, else None"""
+        while isinstance(n, ast.Subscript):
+            n = n.value
+        if isinstance(n, ast.Attribute) and is_name(n.value, "self"):
+            return n.attr
+        return None
+
+    def class_attr(n):
+        while isinstance(n, ast.Subscript):
+            n = n.value
+        if isinstance(n, ast.Attribute):
+            v = n.value
+            if is_name(v, "Contractor"):
+                return n.attr
+            if isinstance(v, ast.Attribute) and v.attr == "__class__" and is_name(v.value, "self"):
+                return n.attr
+            if isinstance(v, ast.Call) and is_name(v.func, "type") and len(v.args) == 1 and is_name(v.args[0], "self"):
+                return n.attr
+        return None
+
+    aliases = {}
+    for n in ast.walk(fn):
+        if isinstance(n, ast.Assign) and isinstance(n.value, ast.Attribute) and is_name(n.value.value, "self"):
+            for t in n.targets:
+                if is_name(t):
+                    aliases[t.id] = n.value.attr
+    reads, writes = [], []
+
+    def wr(what, node):
+        writes.append("%s (contract.py:%d)" % (what, node.lineno))
+
+    def target(t, node):
+        if isinstance(t, (ast.Tuple, ast.List)):
+            for e in t.elts:
+                target(e, node)
+            return
+        if isinstance(t, ast.Starred):
+            return target(t.value, node)
+        a = self_attr(t)
+        if a is not None:
+            return wr("self.%s" % a, node)
+        c = class_attr(t)
+        if c is not None:
+            return wr("Contractor.%s" % c, node)
+        if isinstance(t, ast.Subscript):
+            b = t
+            while isinstance(b, ast.Subscript):
+                b = b.value
+            if is_name(b) and b.id in aliases:
+                wr("self.%s (through the alias %s)" % (aliases[b.id], b.id), node)
+
+    for n in ast.walk(fn):
+        if isinstance(n, ast.Assign):
+            for t in n.targets:
+                target(t, n)
+        elif isinstance(n, (ast.AugAssign, ast.AnnAssign)):
+            target(n.target, n)
+        elif isinstance(n, ast.Delete):
+            for t in n.targets:
+                target(t, n)
+        elif isinstance(n, ast.NamedExpr):
+            target(n.target, n)
+        elif isinstance(n, (ast.Global, ast.Nonlocal)):
+            wr("%s %s" % ("global" if isinstance(n, ast.Global) else "nonlocal", ", ".join(n.names)), n)
+        elif isinstance(n, ast.Call):
+            f = n.func
+            if isinstance(f, ast.Attribute) and f.attr in MUTATORS:
+                a = self_attr(f.value)
+                c = class_attr(f.value)
+                base = f.value
+                while isinstance(base, ast.Subscript):
+                    base = base.value
+                if a is not None:
+                    wr("self.%s.%s(...)" % (a, f.attr), n)
+                elif c is not None:
+                    wr("Contractor.%s.%s(...)" % (c, f.attr), n)
+                elif is_name(base) and base.id in aliases:
+                    wr("self.%s.%s(...) (through the alias %s)" % (aliases[base.id], f.attr, base.id), n)
+            if is_name(f) and f.id in ("setattr", "delattr") and n.args and is_name(n.args[0], "self"):
+                wr("%s(self, ...)" % f.id, n)
+        elif isinstance(n, ast.Attribute) and is_name(n.value, "self") and isinstance(n.ctx, ast.Load):
+            if n.attr not in reads:
+                reads.append(n.attr)
+    for a in reads:
+        if a not in slots and a != "__class__":
+            bad(fn, "Contractor.__call__ reads self.%s which is not a slot" % a)
+    return slots, reads, writes
+
+
+def translate(src, contract_src=None):
     try:
         mod = ast.parse(src)
     except SyntaxError as e:
@@ -550,6 +678,16 @@ def translate(src):
     w("Definition find_tree_default : string := %s." % coq_str(ft_default))
     w("Definition prepare_chain : chain := %s." % coq_chain(prep_chain))
     w("Definition prepare_default : string := %s." % coq_str(prep_default))
+    if contract_src is not None:
+        slots, reads, writes = contractor_effects(contract_src)
+        info["contractor"] = {"slots": slots, "reads": reads, "writes": writes}
+        w("")
+        w("(* cotengra/contract.py class Contractor: the cached expression object.  What __call__ reads from")
+        w("   self, and every write it performs to self.* / the class / a global (must be none: a cached")
+        w("   expression is shared by all later calls with the same key) *)")
+        w("Definition contractor_slots : list string := %s." % coq_strlist(slots))
+        w("Definition contractor_call_reads : list string := %s." % coq_strlist(reads))
+        w("Definition contractor_call_writes : list string := %s." % coq_strlist(writes))
     return "\n".join(out) + "\n", info
 
 
@@ -576,7 +714,8 @@ def main(argv):
     path = os.path.join(repo, "cotengra", "interface.py")
     try:
         src = open(path, encoding="utf-8").read()
-        text, _ = translate(src)
+        csrc = open(os.path.join(repo, "cotengra", "contract.py"), encoding="utf-8").read()
+        text, _ = translate(src, csrc)
     except Untranslatable as e:
         print(str(e))
         return 2
